@@ -59,10 +59,19 @@ def oracle(case):
     if case.get("names") == "numeric" and c >= 2:
         # numbered channels named after ANOTHER position: the binding of samples to curves must not follow the name
         names = ["DEPT"] + [str(c - j) for j in range(1, c)]
+    if case.get("names") == "steering" and c >= 2:
+        # curves named like the items that steer parsing: only ~Version/~Well items may steer
+        names = ["DEPT"] + [("NULL", "WRAP", "DLM", "VERS")[j - 1] if j <= 4 else "C%d" % j for j in range(1, c)]
     desc = {"curves": [[names[j], "", "", "", col] for j, col in enumerate(cols)]}
     if case.get("null"):
         desc["null"] = case["null"]  # any NULL marker must carry the NaNs through the file
     las = build.build_las(desc)
+    if case.get("dlm"):
+        # the object of a file that was comma- or tab-delimited: write() emits blanks and must say so in every version
+        las.version["DLM"].value = case["dlm"]
+        out.cls("dlm-item-" + case["dlm"])
+    if case.get("names"):
+        out.cls("names-" + case["names"])
     if case.get("fmt_first"):
         # a previous write with another fmt and the SAME column_fmt dict object: write() must not keep state in it
         first = dict(opts, fmt=case["fmt_first"])
@@ -285,8 +294,13 @@ def cases(draw, max_rows=6):
     if col_fmt:
         opts["column_fmt"] = col_fmt
     case = dict(cols=cols, opts=opts, lnf_kind=lnf_kind)
-    if draw(st.integers(0, 5)) == 0:
+    k = draw(st.integers(0, 9))
+    if k < 2:
         case["names"] = "numeric"
+    elif k < 4:
+        case["names"] = "steering"
+    if draw(st.integers(0, 5)) == 0:
+        case["dlm"] = draw(st.sampled_from(["COMMA", "TAB"]))
     if nullspec is not None:
         case["null"] = nullspec
     if col_fmt and draw(st.booleans()):
